@@ -118,7 +118,7 @@ class Sim:
         return 0 if l is None else l[1] + 1
 
 
-def gen_history(rnd, nops, p_reject=0.12, p_boundary=0.15, flush_every=None, reads=True, allow_limits=False):
+def gen_history(rnd, nops, p_reject=0.12, p_boundary=0.15, flush_every=None, reads=True, allow_limits=False, max_batch=4):
     """Returns a list of op strings (without the trailing observation ops)."""
     s = Sim()
     ops = []
@@ -172,7 +172,7 @@ def gen_history(rnd, nops, p_reject=0.12, p_boundary=0.15, flush_every=None, rea
             # append 1..4 consecutive entries
             if rnd.random() < 0.2:
                 s.term += rnd.randint(1, 2)
-            n = rnd.choice([1, 1, 1, 2, 3, 4])
+            n = min(max_batch, rnd.choice([1, 1, 1, 2, 3, 4]))
             es = []
             for _ in range(n):
                 l = s.last()
@@ -278,3 +278,9 @@ def sync_ops(ops):
         if o[0] in "VATPCUSF":
             out.append("I")
     return out
+
+
+def cfg_rotates(cfg):
+    """can this configuration ever rotate a chunk in a test-sized history?"""
+    t = cfg.split()
+    return int(t[2]) < (1 << 20) or int(t[3]) < (1 << 30)
